@@ -42,6 +42,13 @@ class SFut(asyncio.Future):
     def __eq__(self, o):
         return self is o
 
+    def exception(self):
+        # the loop body of async_map_unordered starts by asking a finished future for its exception: log the visit order
+        if self.done() and not self.cancelled() and not getattr(self, "_visited", False):
+            self._visited = True
+            self._rec.append({"ev": "Visit", "f": self.fid})
+        return super().exception()
+
     def cancel(self, msg=None):
         was = self.done()
         r = super().cancel(msg)
